@@ -30,8 +30,8 @@ pub const HOSTILE: [&str; 95] = [
     "f__0", "f__1", "f__3", "f__4", "f__5",
 ];
 
-pub const ROLES: [&str; 18] =
-    ["lib-fn", "lib-struct", "lib-variant", "fn", "param", "local", "patvar", "closure-param", "struct", "field", "enum", "variant", "trait", "method", "tparam", "fn-and-local", "fn-called-in-closure", "fn-next-to-captured-function-local"];
+pub const ROLES: [&str; 19] =
+    ["lib-fn", "lib-struct", "lib-variant", "fn", "param", "local", "patvar", "closure-param", "struct", "field", "enum", "variant", "trait", "method", "tparam", "fn-and-local", "fn-called-in-closure", "fn-next-to-captured-function-local", "trait-method"];
 
 const BENIGN: &str = "zzq";
 
@@ -70,6 +70,11 @@ fn template(role: &str) -> (&'static str, &'static str) {
         "method" => (
             "struct Rec { a: int32 }\nimpl Rec { fn {N}(self: Rec, k: int32) -> int32 { self.a + k } }\nfn main() { let s = Rec { a: 1 }; string_println(int32_to_string(s.{N}(2) + Rec::{N}(s, 3))) }\n",
             "7\n",
+        ),
+        // a method of a trait, reached by path, by dot, through a bound and through a dyn value
+        "trait-method" => (
+            "trait Tr { fn {N}(Self, int32) -> int32; }\nstruct Rec { a: int32 }\nimpl Tr for Rec { fn {N}(self: Rec, k: int32) -> int32 { self.a + k } }\nfn via[U: Tr](u: U) -> int32 { Tr::{N}(u, 10) }\nfn dot[U: Tr](u: U) -> int32 { u.{N}(3) }\nfn main() { let s: Rec = Rec { a: 1 }; let d: dyn Tr = s; string_println(int32_to_string(Tr::{N}(s, 2) + dot(s) + via(s) + Tr::{N}(d, 100))) }\n",
+            "119\n",
         ),
         "tparam" => ("fn id[{N}](x: {N}) -> {N} { x }\nfn main() { string_println(int32_to_string(id(3)) + id(\"s\")) }\n", "3s\n"),
         "fn-and-local" => (
@@ -262,7 +267,7 @@ impl Family for NamesFamily {
         &["C19", "C02", "C04"]
     }
     fn rule(&self) -> &'static str {
-        "95 hostile identifiers (Go keywords that goml allows, predeclared identifiers, runtime helper names, the builtins expanded at their call sites, compiler temporaries, generated type/helper names, spellings of the compiler's own type representation, the entry point's names, mangling look-alikes such as a__0) x 18 roles (a fn called from a closure that captures a function-typed local, fn / struct / variant of an imported package, fn, param, local, pattern variable, closure parameter, struct, field, enum, variant, trait, method, type parameter, fn next to temporaries, fn called from a closure) plus 14 collision witnesses for generated names, plus 28 programs declaring two entities of one name in one namespace (functions, types, traits, parameters of functions/methods/impl methods, variants, fields, extern vs fn, methods of one impl, one binder twice in a tuple / nested / constructor / struct pattern or in a closure's parameter list) that must be rejected, plus 29 programs of nested matches on two enum-typed variables (every word of length <= 4 over {x, y} beginning with x as the scrutinees from the outside in; the innermost level also inside a closure called at once) and 7 programs in which re-matches of the variable stand next to each other inside an arm of a match on it (with a match on the other variable, an if or a closure between or around them), whose Go type switches rebind the scrutinee's identifier inside their cases; oracle: emitted Go passes the Go checker and prints exactly what the twin with a benign identifier prints (= the hard-wired expected output). non-trivial = cases whose hostile name survives into the Go text unescaped or mangled; distinct = distinct source text"
+        "95 hostile identifiers (Go keywords that goml allows, predeclared identifiers, runtime helper names, the builtins expanded at their call sites, compiler temporaries, generated type/helper names, spellings of the compiler's own type representation, the entry point's names, mangling look-alikes such as a__0) x 19 roles (a trait method reached by path, by dot, through a bound and through a dyn value; a fn called from a closure that captures a function-typed local, fn / struct / variant of an imported package, fn, param, local, pattern variable, closure parameter, struct, field, enum, variant, trait, method, type parameter, fn next to temporaries, fn called from a closure) plus 14 collision witnesses for generated names, plus 28 programs declaring two entities of one name in one namespace (functions, types, traits, parameters of functions/methods/impl methods, variants, fields, extern vs fn, methods of one impl, one binder twice in a tuple / nested / constructor / struct pattern or in a closure's parameter list) that must be rejected, plus 29 programs of nested matches on two enum-typed variables (every word of length <= 4 over {x, y} beginning with x as the scrutinees from the outside in; the innermost level also inside a closure called at once) and 7 programs in which re-matches of the variable stand next to each other inside an arm of a match on it (with a match on the other variable, an if or a closure between or around them), and 364 programs with a local spelled field0..field27, as the last of 1..13 parameters of a function whose body is a struct literal written in another order than declared (whose field values the compiler names); whose Go type switches rebind the scrutinee's identifier inside their cases; oracle: emitted Go passes the Go checker and prints exactly what the twin with a benign identifier prints (= the hard-wired expected output). non-trivial = cases whose hostile name survives into the Go text unescaped or mangled; distinct = distinct source text"
     }
     fn cases(&self, _tier: Tier) -> Box<dyn Iterator<Item = Value> + '_> {
         let mut v = Vec::new();
@@ -279,6 +284,13 @@ impl Family for NamesFamily {
         }
         for (nm, _, _) in rebinding_sequences() {
             v.push(json!({"kind": "rebinding-sequence", "name": nm}));
+        }
+        // a local spelled like the names the compiler gives to the values of a struct literal whose fields
+        // are written in another order than declared (`field<i>`), declared after 0..12 other locals
+        for k in 0..28 {
+            for pads in 0..13 {
+                v.push(json!({"kind": "struct-literal-temporaries", "k": k, "pads": pads}));
+            }
         }
         for w in rebinding_words() {
             v.push(json!({"kind": "rebinding", "name": w, "closure": false}));
@@ -333,7 +345,22 @@ impl Family for NamesFamily {
             }
             return rep;
         }
-        let (text, expected, site) = if case["kind"] == "rebinding-sequence" {
+        let (text, expected, site) = if case["kind"] == "struct-literal-temporaries" {
+            let (k, pads) = (case["k"].as_u64().unwrap(), case["pads"].as_u64().unwrap());
+            // the literal stands in the first function of the file (expression indices start there); its
+            // parameters give the local the index wanted without adding expressions
+            let mut params: Vec<String> = (0..pads).map(|i| format!("pad{}: int32", i)).collect();
+            params.push(format!("field{}: int32", k));
+            let mut args: Vec<String> = (0..pads).map(|i| i.to_string()).collect();
+            args.push("200".to_string());
+            let t = format!(
+                "struct P3 {{ fa: int32, fb: int32, fc: int32 }}\nfn mk({}) -> P3 {{\n    P3 {{ fc: field{k} + 1, fb: 2, fa: field{k} + 3 }}\n}}\nfn main() {{\n    let t = mk({});\n    string_println(int32_to_string(t.fa) + \",\" + int32_to_string(t.fb) + \",\" + int32_to_string(t.fc) + \",\" + int32_to_string(200))\n}}\n",
+                params.join(", "),
+                args.join(", "),
+                k = k
+            );
+            (t, "203,2,201,200\n".to_string(), format!("struct-literal-temporaries;local=field{};locals-before={}", k, pads))
+        } else if case["kind"] == "rebinding-sequence" {
             let nm = case["name"].as_str().unwrap();
             let (_, t, e) = rebinding_sequences().into_iter().find(|(n, _, _)| *n == nm).unwrap();
             (t, e.to_string(), format!("rebinding-sequence={}", nm))
